@@ -55,7 +55,7 @@ Definition truthy (v : val) : bool :=
 
 Section OpenRecursion.
   (** the evaluator one fuel unit below: [ev d ast env] *)
-  Variable ev : nat -> val -> nat -> M val.
+  Variable ev : nat -> val -> positive -> M val.
 
   (** a registered Go function, called from an EVAL frame at depth [d] *)
   Variable call_builtin : nat -> str -> list val -> M val.
@@ -72,7 +72,7 @@ Section OpenRecursion.
     end.
 
   (** eval_ast *)
-  Fixpoint eval_list (d : nat) (l : list val) (env : nat) : M (list val) :=
+  Fixpoint eval_list (d : nat) (l : list val) (env : positive) : M (list val) :=
     match l with
     | [] => ret []
     | a :: r =>
@@ -81,7 +81,7 @@ Section OpenRecursion.
         ret (v :: vs)
     end.
 
-  Fixpoint eval_map (d : nat) (m : list (str * val)) (env : nat) : M (list (str * val)) :=
+  Fixpoint eval_map (d : nat) (m : list (str * val)) (env : positive) : M (list (str * val)) :=
     match m with
     | [] => ret []
     | (k, a) :: r =>
@@ -90,7 +90,7 @@ Section OpenRecursion.
         ret ((k, v) :: vs)
     end.
 
-  Definition eval_ast (d : nat) (ast : val) (env : nat) : M val :=
+  Definition eval_ast (d : nat) (ast : val) (env : positive) : M val :=
     match ast with
     | VSym s p =>
         fun st => match env_get st env s p with
@@ -107,7 +107,7 @@ Section OpenRecursion.
 
   (** do(ctx, ast, from, to, env) with to ∈ {0, -1}: evaluates lst[from : len+to];
       returns the last evaluated value (to = 0) or the last form unevaluated (to = -1) *)
-  Definition do_forms (d : nat) (lst : list val) (from : nat) (keep_last : bool) (env : nat) : M val :=
+  Definition do_forms (d : nat) (lst : list val) (from : nat) (keep_last : bool) (env : positive) : M val :=
     if Nat.eqb (length lst) from then ret VNil else
     let upto := if keep_last then Z.of_nat (length lst) - 1 else Z.of_nat (length lst) in
     let+ forms := lift (slice lst (Z.of_nat from) upto) in
@@ -118,7 +118,7 @@ Section OpenRecursion.
       match nth_opt vs (length vs - 1) with Some x => ret x | None => lift (Panic (s_ "index out of range")) end.
 
   (** is_macro_call *)
-  Definition macro_of (st : state) (ast : val) (env : nat) : option val :=
+  Definition macro_of (st : state) (ast : val) (env : positive) : option val :=
     match ast with
     | VList (VSym s p :: _) _ =>
         match env_find st env s with
@@ -133,7 +133,7 @@ Section OpenRecursion.
     end.
 
   (** macroexpand: `for is_macro_call(ast, env) { ast = Apply(mac, ast[1:]) }` *)
-  Fixpoint macroexpand (k : nat) (d : nat) (ast : val) (env : nat) : M val :=
+  Fixpoint macroexpand (k : nat) (d : nat) (ast : val) (env : positive) : M val :=
     fun st =>
       match macro_of st ast env with
       | None => (Ok ast, st)
@@ -188,7 +188,7 @@ Section OpenRecursion.
 
   (** `defer func() { do(ctx, finallyDo, 0, 0, tryEnv) }()`: runs after the rest of this EVAL
       invocation; its value and error are discarded, a panic inside it propagates *)
-  Definition with_finally (d : nat) (fin : option (list val)) (env : nat) (rest : M val) : M val :=
+  Definition with_finally (d : nat) (fin : option (list val)) (env : positive) (rest : M val) : M val :=
     fun st =>
       let '(r, st1) := rest st in
       match r with
@@ -228,7 +228,7 @@ Section OpenRecursion.
     end.
 
   (** ---- one iteration of EVAL's loop.  [k] = fuel left for macro expansion loops. ---- *)
-  Definition eval_step (k : nat) (d : nat) (ast : val) (env : nat) : M val :=
+  Definition eval_step (k : nat) (d : nat) (ast : val) (env : positive) : M val :=
     match ast with
     | VList _ _ =>
         let+ ast := macroexpand k d ast env in
